@@ -58,6 +58,7 @@ pub fn run_case(case: &Case) -> RunOutput {
     match case.prop.as_str() {
         "C04" => crate::crash::run_crash(case),
         "C12" => crate::conc::run_conc(case),
+        "C11" => crate::jrnl::run_jrnl(case),
         _ => run_sequential(case),
     }
 }
